@@ -151,7 +151,7 @@ func allSeeds() []seed {
 		for _, n := range stateNames {
 			state = append(state, c.raw[n])
 		}
-		for _, n := range c.order {
+		for _, n := range c.chain() {
 			chain = append(chain, c.raw[n])
 		}
 		b, _ := json.Marshal(map[string]interface{}{"pdus": state, "auth_chain": chain})
